@@ -137,6 +137,12 @@ impl Check {
         }
     }
 
+    pub fn add_finding_n(&mut self, f: Finding, n: u64) {
+        let key = format!("{}|{}", f.clause, f.witness);
+        self.add_finding(f);
+        *self.finding_counts.entry(key).or_default() += n.saturating_sub(1);
+    }
+
     pub fn unknown_classes(&self) -> usize {
         self.findings.iter().filter(|f| self.is_known(&f.clause, &f.witness).is_none()).count()
     }
